@@ -178,10 +178,11 @@ theorem ready_poll_enters_post_start (a : Actor) (hph : a.phase = .ready) (hs : 
   simp [hph, hs]
 
 theorem instant_first_poll_enters_pre_start (a : Actor) (supOk : Bool) (hph : a.phase = .cell)
+    (hst : a.status = .unstarted)
     (hs : a.sigVal = false) (hl : a.isLocal = true → a.wantSup.isSome = true → supOk = true) :
     Ev.enter .preStart .none ∈ evs (opPollSpawn a supOk).2 ∧ (opPollSpawn a supOk).1.phase = .pre := by
   unfold opPollSpawn startInstant
-  simp only [hph]
+  simp only [hph, hst, ne_eq, not_true_eq_false, ↓reduceIte]
   cases hloc : a.isLocal with
   | false => simp [beginPre, hs]
   | true =>
